@@ -2,7 +2,7 @@
    map are canonical absolute paths "/s1/…/sn"; parent, "strictly below", prefix rewriting and
    depth are computed on the list of segments.  (Nothing here is about arbitrary spellings:
    that is Proofs/PathProof.v.) *)
-From AF Require Import Lib.Bytes Lib.Path Lib.Ops Proofs.BytesLemmas.
+From AF Require Import Lib.Bytes Lib.Path Lib.Ops Model.WfOps Proofs.BytesLemmas.
 
 (* ---------- byte-string equality ---------- *)
 Lemma beqb_eq a b : beqb a b = true <-> a = b.
@@ -297,7 +297,6 @@ Proof.
   apply Forall_app in Hf as [Hi Hx]. inversion Hx; subst. now exists init, x.
 Qed.
 
-Definition par (k : str) : str := path_dir k.
 
 Lemma par_pth segs x : Forall good_seg segs -> good_seg x -> par (pth (segs ++ [x])) = pth segs.
 Proof. intros Hf Hx. apply path_dir_pth; [exact Hf | apply Hx]. Qed.
@@ -341,7 +340,6 @@ Lemma register_path k : canon k -> normalize_path (path_dir (clean k)) = par k.
 Proof. intros Hc. rewrite canon_clean by exact Hc. apply (canon_norm _ (canon_par k Hc)). Qed.
 
 (* ---------- strictly below ---------- *)
-Definition below (a k : str) : bool := prefixb (a ++ s_slash) k.
 
 Lemma below_spec a k : below a k = true <-> exists r, k = a ++ SLASH :: r.
 Proof.
